@@ -118,7 +118,8 @@ CLASSES = {}
 
 
 def _defaults():
-    return [enc(getattr(CLASSES[c], a)) for c, a in CLASS_DEFAULTS]
+    # an attribute that a refactoring removed from the class is simply "absent" (and must stay absent)
+    return [enc(getattr(CLASSES[c], a, "<absent>")) for c, a in CLASS_DEFAULTS]
 
 
 def preload(prop, workers=0):
@@ -574,7 +575,7 @@ class Exec(object):
         self.faults["instance_op"] += 1
         k = (c, cls)
         self.snap[k] = json.dumps(enc(o), sort_keys=True)
-        self.trace.ev("inst", c, cls, si, outcome, hashlib.sha256(self.snap[k].encode()).hexdigest()[:12])
+        self.trace.ev("inst", c, cls, si, outcome)  # not the snapshot: it may legitimately contain id()-like values
         self.shape.append("i:%s" % cls)
         self._check_siblings(k, "step %d" % si)
 
